@@ -128,6 +128,50 @@ theorem C20_pub_conc_version_protocol (H : Hash) (cur : Pub) (now : Int) (progs 
           | true => cases a <;> simp [hne, hacked] at hck
         · simp [hne] at hck
 
+/-- **acknowledged at most once, whatever the number of concurrent acknowledgers**: any number of threads,
+any programs of `AcknowledgePublication` calls with an ACCEPTED / REJECTED receipt (any versions, with or
+without allow_acknowledged), any schedule: at most ONE of all these calls ever commits (returns a newly
+acknowledged publication); all others are refused (or, with allow_acknowledged, answered with the already
+acknowledged publication without a write). -/
+theorem C20_pub_conc_acknowledged_once (cur : Pub) (now : Int)
+    (progs : List (List (String × Int × String × Bool)))
+    (hr : ∀ p ∈ progs, ∀ a ∈ p, a.2.1 = 2 ∨ a.2.1 = 3) (sched : List Ev) :
+    (Cfg.run ⟨cur, now, (progs.map (·.map (fun a => ackCall a.1 a.2.1 a.2.2.1 a.2.2.2))).map Thread.ofCalls⟩
+      sched).oks ≤ 1 := by
+  obtain ⟨log, hmem, _, hleg, hcnt⟩ := linearizes_legal cur now
+    (progs.map (·.map (fun a => ackCall a.1 a.2.1 a.2.2.1 a.2.2.2))) sched
+  rw [hcnt]
+  have hack : ∀ p ∈ log, ∃ v r reason a, (r = 2 ∨ r = 3) ∧ p.1 = ackCall v r reason a := by
+    intro p hp
+    obtain ⟨cs, hcs, hx⟩ := hmem p hp
+    obtain ⟨prog, hprog, rfl⟩ := List.mem_map.mp hcs
+    obtain ⟨a, ha, heq⟩ := List.mem_map.mp hx
+    exact ⟨a.1, a.2.1, a.2.2.1, a.2.2.2, hr prog hprog a ha, heq.symm⟩
+  match log, hleg, hack with
+  | [], _, _ => simp
+  | [_], _, _ => simp
+  | p :: q :: rest, hleg, hack =>
+    exfalso
+    obtain ⟨v, r, reason, a, hr2, hp⟩ := hack p (by simp)
+    obtain ⟨v', r', reason', a', _, hq⟩ := hack q (by simp)
+    have hq2 := hleg.2.1
+    rw [hp, hq] at hq2
+    simp only [ackCall] at hq2
+    have hacked : acked { cur with audience := some ⟨(cur.audience.map (·.name)).getD "", r, reason, some p.2⟩ } = true := by
+      rcases hr2 with rfl | rfl <;> simp [acked]
+    split at hq2
+    · simp at hq2
+    · simp at hq2
+
+/-- … and one does commit: two threads acknowledge the same version at once (ACCEPTED / REJECTED), steps
+alternating — exactly one of them is committed -/
+example :
+    (Cfg.run ⟨(⟨"p", "b", "", some ⟨"n", 1, "", none⟩, "p", some 100⟩ : Pub), 100,
+      ([[("p", (2 : Int), "", false)], [("p", (3 : Int), "no", false)]].map
+        (·.map (fun a => ackCall a.1 a.2.1 a.2.2.1 a.2.2.2))).map Thread.ofCalls⟩
+      [.step 0, .step 1, .step 0, .step 1, .step 0, .step 1, .step 0, .step 1]).oks = 1 := by
+  decide
+
 /-- **why the version check must run inside the write**: the variant that checks the version by a separate
 read before the write (here: a call that only checks, followed by an unconditional update) lets a rival's
 update slip in between — the update meant for version "b" is committed on top of version "b2", both of the
